@@ -25,6 +25,7 @@ type (
 		fn   *ssa.Function
 		bind []aval
 	}
+	aInvoke struct{ name string } // interface method call: an event named after the method
 	aCell   struct{ v aval }
 	aTuple  struct{ vs []aval }
 	aOpaque struct{ why string }
@@ -118,6 +119,12 @@ func (it *interp) call(fv aval, args []aval, callee *ssa.Function, calleeName st
 			return out
 		}
 		return aOpaque{"step without outcome"}
+	case aInvoke:
+		if out, ok := it.outcome[f.name]; ok {
+			it.events = append(it.events, stepEvent{Name: f.name})
+			return out
+		}
+		return aOpaque{"invoke " + f.name}
 	case aClos:
 		if f.fn.Blocks == nil {
 			return it.extern(f.fn, args)
@@ -340,7 +347,7 @@ func (it *interp) prepCall(fr *frame, c *ssa.CallCommon) (aval, []aval, *ssa.Fun
 		args = append(args, it.val(fr, a))
 	}
 	if c.IsInvoke() {
-		return aOpaque{"invoke"}, args, nil, c.Method.Name()
+		return aInvoke{c.Method.Name()}, args, nil, c.Method.Name()
 	}
 	if callee := c.StaticCallee(); callee != nil {
 		if _, isClosure := c.Value.(*ssa.MakeClosure); isClosure {
